@@ -403,6 +403,16 @@ def check_C01(ctx):
     # the recorded witness of K2, so that the finding is looked at (and reported) on every run
     kd = [gen.mkopt("custom", "a", custom=dict(gen.CUSTOM_FLAG)), gen.mkopt("custom", "b", custom=dict(gen.CUSTOM_FLAG))]
     blank.append({"op": "run", "env": {}, "version": None, "root": gen.mkcmd("app", decls=kd, spec="-ab -a", policy=0), "argv": ["-a", "-a"]})
+    # two flags bound to the very same destination (one *bool through the ...Ptr forms, one flag.Value object given to
+    # two VarOpt): they remain two options for the spec
+    for kind in ("bool", "custom"):
+        mk = (lambda n: gen.mkopt("bool", n, destshare="d", ptr=True, **{"def": ["false"]})) if kind == "bool" else \
+             (lambda n: gen.mkopt("custom", n, custom=dict(gen.CUSTOM_FLAG), destshare="d"))
+        sd2 = [mk("a all"), mk("b both"), gen.mkarg("strings", "X")]
+        for sp in ("[--all] X", "[-a] X", "-a [-b] X", "(-a | -b) X", "[-b] [X]", "-a... X", "[OPTIONS] X"):
+            for n in (1, 2, 3):
+                for t in itertools.product(["--both", "--all", "-a", "-b", "x", "-ab", "--both=true", "-b=true"], repeat=n):
+                    blank.append({"op": "run", "env": {}, "version": None, "root": gen.mkcmd("app", decls=copy.deepcopy(sd2), spec=sp, policy=0), "argv": list(t)})
     number(blank, start=len(cases) + len(sc))
     res3 = correspond(ctx, blank, fields, "specs of blanks and padded specs")
     st3 = judge_sentences(ctx, blank, res3, "C01")
